@@ -49,27 +49,78 @@ def step(op, kind, n, pre, grp, props, tables="any", grow=1, **kw):
          covers_required=(n > 0), **kw)
 
 
+def retain(op, kind, n, pat, pre, grp, props, **kw):
+    ty = KINDS[kind]["ty"]
+    name = f"step_{kind}_{op}_n{n}_p{pat:0{max(n,1)}b}_{pre}_{grp}"
+    expr = f"step::{op}::<{ty}, {n}, {pat}>({PRE[pre]}, {TAB['any']}, {GRP[grp]})"
+    inst(name, expr, kind, n, props, "STEP",
+         meta=dict(op=op, kind=kind, n=n, pre=pre, group=grp, tables="any", verdicts=f"{pat:0{max(n,1)}b}"),
+         covers_required=(n > 0), **kw)
+
+
 # --------------------------------------------------------------------------------------
 # STEP: core single-element operations
 # --------------------------------------------------------------------------------------
 def _core():
+    # (op, grow, heavy-on-dq)
+    core = [("push", 1), ("change_priority", 0), ("change_priority_by", 0), ("remove", 0), ("pop_hi", 0)]
     for kind, qmax, tmax in (("pq", 4, 7), ("dq", 3, 5)):
-        hi_ops = ["push", "change_priority", "change_priority_by", "remove", "pop_hi"]
+        ops = list(core)
         if kind == "dq":
-            hi_ops.append("pop_lo")
-        for op in hi_ops:
-            grow = 1 if op == "push" else 0
+            ops.append(("pop_lo", 0))
+        ordp = "C01" if kind == "pq" else "C02"
+        for op, grow in ops:
             for n in range(0, tmax + 1):
                 t = QUICK if n <= qmax else THOROUGH
+                if kind == "dq" and op == "change_priority_by" and n > 2:
+                    t = THOROUGH          # same sift path as change_priority
                 # order group -> C01/C02, model group -> C03, struct group from
                 # order-free states -> C04 (and the continuation half of C10)
-                ordp = "C01" if kind == "pq" else "C02"
                 step(op, kind, n, "inv", "or", {ordp: t}, grow=grow)
-                step(op, kind, n, "inv", "mo", {"C03": t}, grow=grow)
+                step(op, kind, n, "cs", "mo", {"C03": t}, grow=grow)
                 step(op, kind, n, "cs", "st", {"C04": t, "C10": t}, grow=grow)
 
 
 _core()
+
+
+def _more():
+    for kind, qmax, tmax in (("pq", 4, 6), ("dq", 3, 5)):
+        ordp = "C01" if kind == "pq" else "C02"
+        ends = ["hi"] + (["lo"] if kind == "dq" else [])
+        for n in range(0, tmax + 1):
+            t = QUICK if n <= qmax else THOROUGH
+            tq = QUICK if n <= qmax - 1 else THOROUGH
+            # C11
+            for op in ("push_increase", "push_decrease"):
+                step(op, kind, n, "inv", "all", {"C11": t}, grow=1)
+                step(op, kind, n, "cs", "st", {"C04": tq}, grow=1)
+            # pop_if family
+            for e in ends:
+                step(f"pop_{e}_if", kind, n, "inv", "or", {ordp: t, "C08": t}, grow=0)
+                step(f"pop_{e}_if", kind, n, "cs", "mo", {"C03": tq, "C08": t}, grow=0)
+                step(f"pop_{e}_if", kind, n, "cs", "st", {"C04": tq}, grow=0)
+                step(f"peek_{e}_mut", kind, n, "inv", "all", {ordp: t, "C12": t}, grow=0)
+                step(f"peek_{e}_mut", kind, n, "cs", "st", {"C04": tq}, grow=0)
+            step("get_mut", kind, n, "inv", "all", {"C03": tq, "C12": t}, grow=0)
+            step("change_priority_item", kind, n, "inv", "all", {"C12": t}, grow=0)
+            # retain: one instance per concrete verdict pattern (see step.rs); quick: one
+            # pattern per survivor count (reject a prefix / reject a suffix alternating),
+            # thorough: every pattern
+            for op in ("retain_imm", "retain_mut"):
+                for pat in range(0, 1 << n):
+                    c = bin(pat).count("1")
+                    canon = ((1 << c) - 1) if c % 2 == 0 else (((1 << c) - 1) << (n - c))
+                    tp = t if pat == canon else THOROUGH
+                    if n > 4 and pat != canon:
+                        continue
+                    retain(op, kind, n, pat, "inv", "all", {"C08": tp, ordp: tp})
+                    if pat == canon:
+                        retain(op, kind, n, pat, "cs", "st", {"C04": tq})
+            step("clear", kind, n, "cs", "all", {"C16": t, "C04": tq}, grow=1)
+
+
+_more()
 
 
 def select(prop, tier):
